@@ -4,6 +4,7 @@ A bit of abstraction connecting generic storage routines to nodes.
 
 from __future__ import annotations
 
+import os
 import pickle
 from abc import ABC, abstractmethod
 from collections.abc import Generator
@@ -214,6 +215,11 @@ class PickleStorage(StorageInterface):
     def _fallback(self, cpf: bool | None) -> bool:
         return self.cloudpickle_fallback if cpf is None else cpf
 
+    @staticmethod
+    def _tmp(p: Path) -> Path:
+        """Where the content for `p` gets written before it is moved into place."""
+        return p.with_name(p.name + ".tmp")
+
     def _save(
         self, node: Node, filename: Path, /, cloudpickle_fallback: bool | None = None
     ):
@@ -231,17 +237,28 @@ class PickleStorage(StorageInterface):
         if self._fallback(cloudpickle_fallback):
             attacks += [(self._CLOUDPICKLE, cloudpickle.dump)]
 
+        # Never write onto the final name: a save that fails or is interrupted must not
+        # cost us the last good save, nor leave a truncated file where `_load` (and
+        # autoloading) would pick it up. Write to a temporary sibling, atomically move it
+        # into place, and only then drop the file with the other suffix -- otherwise a
+        # stale `.pckl` would shadow a newer `.cpckl` at load time.
         e: Exception | None = None
         for suffix, save_method in attacks:
             e = None
             p = filename.with_suffix(suffix)
+            tmp = self._tmp(p)
             try:
-                with open(p, "wb") as filehandle:
+                with open(tmp, "wb") as filehandle:
                     save_method(node, filehandle)
-                return
+                os.replace(tmp, p)
             except Exception as ee:
                 e = ee
-                p.unlink(missing_ok=True)
+                tmp.unlink(missing_ok=True)
+            else:
+                for other in (self._PICKLE, self._CLOUDPICKLE):
+                    if other != suffix:
+                        filename.with_suffix(other).unlink(missing_ok=True)
+                return
         if e is not None:
             raise e
 
@@ -267,7 +284,9 @@ class PickleStorage(StorageInterface):
             else [self._PICKLE]
         )
         for suffix in suffixes:
-            filename.with_suffix(suffix).unlink(missing_ok=True)
+            p = filename.with_suffix(suffix)
+            p.unlink(missing_ok=True)
+            self._tmp(p).unlink(missing_ok=True)  # Left behind by an interrupted save
 
     def _has_saved_content(
         self, filename: Path, /, cloudpickle_fallback: bool | None = None
